@@ -166,6 +166,27 @@ def rows_for(draw, spec, seq, max_rows=6):
             if row is not None:
                 out.append(row)
         rows[m['uid']] = out
+    # rows dropped above may have been referenced: no dangling foreign keys
+    changed = True
+    while changed:
+        changed = False
+        ids = {m['uid']: {r['id'] for r in rows.get(m['uid'], [])} for _a, _n, m in models}
+        for a, n, m in models:
+            keep = []
+            for r in rows.get(m['uid'], []):
+                ok = True
+                for f in m['fields']:
+                    if f['kind'] in ('ForeignKey', 'OneToOne') and r.get(f['uid']) is not None:
+                        tgt = S.get_model(spec, *f['target'])
+                        if tgt is None or r[f['uid']] not in ids.get(tgt['uid'], ()):
+                            if f['null']:
+                                r[f['uid']] = None
+                            else:
+                                ok = False
+                            changed = True
+                if ok:
+                    keep.append(r)
+            rows[m['uid']] = keep
     for a, n, m in models:
         for f in m['fields']:
             if f['kind'] == 'ManyToMany':
